@@ -132,8 +132,13 @@ def _prune_cache(keep):
         return
     ents = [e for e in ents if os.path.isdir(e) and e != keep]
     ents.sort(key=lambda p: os.path.getmtime(p))
-    for e in ents[:-6]:
+    keep_n = int(os.environ.get("VERIF_CACHE_KEEP", "6") or 6)
+    for e in ents[:-keep_n]:
         shutil.rmtree(e, ignore_errors=True)
+        try:
+            os.remove(e + ".lock")
+        except OSError:
+            pass
 
 
 def get_syn(repo=None):
@@ -142,7 +147,7 @@ def get_syn(repo=None):
     ensure_engines()
     cd = _cache_dir(repo)
     out = os.path.join(cd, "syn.json")
-    with _Lock(os.path.join(CACHE, "lock")):
+    with _Lock(cd + ".lock"):
         if not os.path.exists(out):
             os.makedirs(cd, exist_ok=True)
             tmp = out + ".tmp"
@@ -165,7 +170,7 @@ def get_mir(featureset="default", repo=None):
     cd = _cache_dir(repo)
     outdir = os.path.join(cd, "mir-" + featureset)
     done = os.path.join(outdir, "DONE")
-    with _Lock(os.path.join(CACHE, "lock")):
+    with _Lock(cd + ".lock"):
         if not os.path.exists(done):
             shutil.rmtree(outdir, ignore_errors=True)
             os.makedirs(outdir, exist_ok=True)
